@@ -7,6 +7,23 @@ From PP Require Export Base.Bytes Base.Lines Gen.Src_shard.
 From Coq Require Export NArith.
 Local Open Scope N_scope.
 
+(* Base/Lines.records with rev_append instead of rev *)
+Fixpoint split_at_fast (d : Z) (bs : list Z) (cur : list Z) : list (list Z) * list Z :=
+  match bs with
+  | [] => ([], rev_append cur [])
+  | b :: r =>
+    if (b =? d)%Z then let (rs, t) := split_at_fast d r [] in (rev_append cur [] :: rs, t)
+    else split_at_fast d r (b :: cur)
+  end.
+Definition strip_cr_fast (l : list Z) : list Z :=
+  match rev_append l [] with
+  | 13%Z :: r => rev_append r []
+  | _ => l
+  end.
+Definition records_fast (d : Z) (cr : bool) (bs : list Z) : list (list Z) :=
+  let (rs, t) := split_at_fast d bs [] in
+  map (if cr then strip_cr_fast else (fun x => x)) rs ++ (match t with [] => [] | _ => [t] end).
+
 (* ---- main(): out[cb.Hash() % shard_count] << line << '\n' *)
 Section Shard.
   Variable keyhash : list Z -> N.
@@ -34,6 +51,10 @@ Section Shard.
      stripped: ReadLineOrEOF's default), sharded, rendered *)
   Definition shard_tool (n : N) (input : list Z) : list (list Z) :=
     map shard_bytes (shard n (records 10%Z shard_strip_cr input)).
+  (* the same with linear-time list reversal (the stdlib [rev] is quadratic, which
+     matters for the extracted model on long lines); proved equal in ShardProofs.v *)
+  Definition shard_tool_fast (n : N) (input : list Z) : list (list Z) :=
+    map shard_bytes (shard n (records_fast 10%Z shard_strip_cr input)).
 End Shard.
 
 (* ---- ThreadedBufferedStream: the bytes reach the writer in blocks of
